@@ -82,7 +82,7 @@ def worker_main(argv):
                 stats["events"] += hist.n
             if outcome == "inconclusive":
                 stats["inconclusive"] += 1
-            if hist is not None and outcome == "completed":
+            if hist is not None and chk.outcome_ok(outcome, hist):
                 nt, classes = chk.nontrivial(prog, hist)
                 for c in classes:
                     stats["classes"][c] = stats["classes"].get(c, 0) + 1
@@ -220,6 +220,14 @@ class E3Check:
                 return k
         return None
 
+    def outcome_ok(self, outcome, hist):
+        """did the case run to its intended end (so that its non-triviality can be measured)?"""
+        return outcome == "completed"
+
+    def pre_run(self, rep, tier, seed):
+        """optional in-process part of a check (E1/E2); may add violations to rep; returns counters to merge"""
+        return None
+
     # to be provided by subclasses
     def recipe_strategy(self, tier):
         raise NotImplementedError
@@ -239,6 +247,7 @@ class E3Check:
         for v in ("hook", "hook-asan") if self.asan_share else ("hook",):
             self.build(v)
         ncorpus = self.corpus_tier(rep)
+        extra = self.pre_run(rep, tier, seed) or {}
         nworkers = self.workers_quick if tier == "quick" else self.workers_thorough
         nworkers = max(1, min(nworkers, core.ncpu() - 1))
         budget_s = budget if budget else (self.quick_budget_s if tier == "quick" else self.thorough_budget_s)
@@ -289,7 +298,14 @@ class E3Check:
                     rep.known_hit(known_entries[kid], n)
             for e in s.get("worker_errors", []) + s.get("hypothesis_errors", []):
                 errors.append(e)
-        cov["distinct_nontrivial"] = len(hashes)
+        cov["distinct_nontrivial"] = len(hashes) + extra.get("distinct_nontrivial", 0)
+        cov["evaluations"] += extra.get("evaluations", 0)
+        for k, v in extra.get("classes", {}).items():
+            cov["classes"][k] = cov["classes"].get(k, 0) + v
+        for smp in extra.get("samples", []):
+            cov["samples"].append(smp)
+        for k, v in extra.get("other", {}).items():
+            cov[k] = v
         cov["corpus_replayed"] = ncorpus
         if errors:
             rep.notes.append("worker errors: " + " | ".join(errors)[:3000])
